@@ -183,6 +183,9 @@ def apply_callable(ex, f, row, st, node):
         return out
     if isinstance(f, Closure) and isinstance(f.node, ast.Lambda):
         return ex.call_closure(f, [row], {}, st, node)
+    if isinstance(f, SV) and f.td == TCallable:
+        # a callable obtained from a (recursive) convert_* call, handed on as it is
+        return ex.ok(SV(TInt, V.capp(f.z, row.z)), st)
     raise OutsideSubset(f"callable value {f!r}", node)
 
 
@@ -198,7 +201,14 @@ def _call_any(ex, callee, args, kwargs, st, node):
     return None
 
 
+custom_function = z3.Function("engine_has_custom_function", smt.Ref, z3.StringSort(), z3.BoolSort())
+
+
 def _contains(ex, container, item, st, node):
+    if isinstance(container, SV) and isinstance(container.td, TRefT) and z3.is_app(container.z) and container.z.decl().name().endswith(".functions") \
+            and container.z.num_args() == 1 and isinstance(item, SV) and item.td == smt.TStr:
+        # ``name in self.functions``: whether the engine was given its own implementation of the name -- left open (both answers explored)
+        return custom_function(container.z.arg(0), item.z)
     if isinstance(container, PyContainerOf) and isinstance(item, SV):
         return cin(container.cl, _as_int(item), container.rho)
     if isinstance(container, SV) and container.td == TRange and isinstance(item, SV):
